@@ -345,6 +345,12 @@ func evalCase0(cs Case) (class, msg string) {
 				}
 			}
 			takeRouterSnaps(len(cs.Ops))
+			// later, independent writes: one that creates the root of a method the router never had (first, while the
+			// published root slice is still the one the transaction started from), one under GET
+			f.Handle("ZED", "/later", hookHandler(9), fx.WithVer(9))
+			if !recheck("a later Handle(ZED /later)") {
+				return
+			}
 			f.Handle("GET", "/later", hookHandler(9), fx.WithVer(9))
 			if !recheck("a later Handle(GET /later)") {
 				return
@@ -381,6 +387,12 @@ func evalCase0(cs Case) (class, msg string) {
 				return
 			}
 			// a later, independent write
+			// later, independent writes: one that creates the root of a method the router never had (first, while the
+			// published root slice is still the one the transaction started from), one under GET
+			f.Handle("ZED", "/later", hookHandler(9), fx.WithVer(9))
+			if !recheck("a later Handle(ZED /later)") {
+				return
+			}
 			f.Handle("GET", "/later", hookHandler(9), fx.WithVer(9))
 			if !recheck("a later Handle(GET /later)") {
 				return
